@@ -228,6 +228,8 @@ def judge(ctx: Ctx, c, schedule, results, final, trace):
 
 
 def explore(ctx: Ctx, c, limit):
+    if ctx.quick:
+        limit = min(limit, 150)
     """stateless DFS over schedules of the scenario; returns number of schedules run"""
     stack = [[]]
     seen = set()
@@ -328,6 +330,27 @@ def stress(ctx: Ctx, c):
 
 def cases(ctx: Ctx):
     rng = ctx.rng
+    # tiny two-process programs, explored exhaustively: every pair of operation kinds on the same keys
+    X16 = 16777217
+    pairs = [
+        ([["mark", 5, "T", 7]], [["mark", 5, "T", 9]], [[5, "A"]]),
+        ([["mark", 5, "T", 7]], [["set", 5, "B"]], [[5, "A"]]),
+        ([["mark", 5, "T", 7]], [["del", 5]], [[5, "A"]]),
+        ([["mark", 5, "T", 7]], [["cleanup_uploads", 0]], [[5, "A"]]),
+        ([["mark", 5, "T", 7], ["needs", 5, "T"]], [["set", 5, "B"], ["mark", 5, "T", 9]], [[5, "A"]]),
+        ([["get", "X", "8bit", 5, 7]], [["set", 5, "B"]], []),
+        ([["get", "X", "8bit", 5, 7]], [["del", 5]], [[5, "X"], [6, "Z"]]),
+        ([["get", "X", "8bit", 5, 7]], [["cleanup", "8bit", 5, 7, 1]], [[5, "X"], [6, "Z"]]),
+        ([["get", "X", "32bit", 0, 256]], [["get", "X", "32bit", 0, 256]], []),
+        ([["get", "X", "24bit", 3, 4]], [["get", "Y", "24bit", 3, 4]], []),
+        ([["get", "X", "8bit", 5, 7]], [["get", "X", "8bit", 5, 7]], []),
+        ([["get", "X", "8bit", 5, 7]], [["get", "Y", "8bit", 5, 7]], [[5, "X"], [6, "Z"]]),
+        ([["set", 5, "A"]], [["set", 5, "B"]], []),
+        ([["cleanup", "8bit", 5, 8, 1]], [["cleanup", "8bit", 5, 8, 2]], [[5, "A"], [6, "B"], [7, "C"]]),
+    ]
+    for a, b, pre in pairs:
+        yield dict(k="explore", programs=[a, b], prefill=pre, limit=120)
+    yield dict(k="explore", programs=[[["mark", 5, "T", 7]], [["mark", 5, "T", 9]], [["set", 5, "B"]]], prefill=[[5, "A"]], limit=200)
     # exhaustive exploration of small programs
     yield dict(k="explore", programs=[[["get", "X", "32bit", 0, 256]], [["get", "X", "32bit", 0, 256]]], limit=400)
     yield dict(k="explore", programs=[[["get", "X", "24bit", 3, 4]], [["get", "X", "24bit", 3, 4]], [["get", "Y", "24bit", 3, 4]]], limit=400)
